@@ -203,6 +203,28 @@ func genSrvSec(repo string) (string, error) {
 		return "", err
 	}
 
+	// 3c. does New() enable None/None when no EnableSecurity option was given?
+	defaultsToNone := false
+	{
+		fd, err := srvrobFindFunc(fset, filepath.Join(repo, "server"), "New")
+		if err != nil {
+			return "", err
+		}
+		ast.Inspect(fd.Body, func(n ast.Node) bool {
+			ifs, ok := n.(*ast.IfStmt)
+			if !ok || !strings.Contains(types.ExprString(ifs.Cond), "enabledSec") {
+				return true
+			}
+			ast.Inspect(ifs.Body, func(m ast.Node) bool {
+				if c, ok := m.(*ast.CallExpr); ok && strings.Contains(types.ExprString(c.Fun), "EnableSecurity") {
+					defaultsToNone = true
+				}
+				return true
+			})
+			return true
+		})
+	}
+
 	// 4. the policies the code supports (evaluated)
 	var pols []string
 	for _, p := range uapolicy.SupportedPolicies() {
@@ -226,6 +248,8 @@ func genSrvSec(repo string) (string, error) {
 	sb.WriteString("]\n\n")
 	sb.WriteString("/-- handleOpenSecureChannelRequest asks `cfg.AcceptSecurity` and RegisterConn installs the server's predicate -/\n")
 	fmt.Fprintf(&sb, "def opnChecksEnabled : Bool := %v\n\n", a1 && a2)
+	sb.WriteString("/-- `server.New` enables None / None when the options enabled nothing -/\n")
+	fmt.Fprintf(&sb, "def defaultsToNone : Bool := %v\n\n", defaultsToNone)
 	sb.WriteString("/-- `defaultChannelConfig()` in server/server_config.go -/\n")
 	fmt.Fprintf(&sb, "def defaultChannelPolicy : String := %s\n", srvsecLeanStr(defPolicy))
 	fmt.Fprintf(&sb, "def defaultChannelMode : String := %s\n\n", srvsecLeanStr(defMode))
